@@ -121,6 +121,64 @@ Theorem C14_quoted_string_value : forall len start delim, delim < 128 -> delim <
   quoted_spec fs delim (lossy (rest c)) = Some (s, lossy (rest c')) /\ bytes_ok (rest c').
 Proof. exact quoted_string_value. Qed.
 
+(* numbers: for EVERY input, lex_number answers exactly as the segment-level
+   grammar number_spec (strict := false, i.e. as the code reads it):
+   integer part = first digit + digit group; LeadingZeroInNumber iff the first
+   digit is 0 and the group contains a digit; then optionally '.' + at least one
+   digit (else MissingFracDigits) + digit group; then optionally e/E, optional
+   sign, at least one digit (else MissingExpDigits) + digit group; a group ending
+   in '_' not followed by one of those continuations is MissingDigitAfterUnderscore;
+   token digits = integer digits ++ fraction digits (underscores dropped),
+   exp = (+/-)explicit exponent - number of fraction digits, ExpOverflow iff the
+   explicit exponent or that difference leaves i64. *)
+Theorem C14_number_value : forall len start chr0 c, is_digit chr0 = true ->
+  match lex_number len start chr0 c with
+  | Ok (t, c') => exists digits e, tok_kind t = TNumber {| num_digits := digits; num_exp := e |} /\
+                                   number_spec false chr0 (rest c) = Ok (digits, e, rest c')
+  | Err er => number_spec false chr0 (rest c) = Err (err_kind er)
+  | _ => True
+  end.
+Proof. exact number_value. Qed.
+
+(* the digit string of int ++ frac denotes int * 10^|frac| + frac: together with
+   exp = X - |frac| this is  value(digits) * 10^exp = (int.frac) * 10^X *)
+Theorem C14_number_digits_value : forall a b,
+  dec_value (a ++ b) = dec_value a * 10 ^ N.of_nat (length b) + dec_value b.
+Proof. exact dec_value_app. Qed.
+
+(* the upstream grammar (an underscore must be followed by a digit) is contained
+   in what the code accepts, with the same token ... *)
+Theorem C14_number_strict_sub : forall chr0 r x,
+  number_spec true chr0 r = Ok x -> number_spec false chr0 r = Ok x.
+Proof. exact number_spec_strict_sub. Qed.
+
+(* ... and the containment is proper: OBSERVED DEVIATION of the code from the
+   upstream grammar: after '_' the state machine still accepts '.' and 'e', so
+   1_.5, 1_e5 and 1.0_e1 are numbers (1_ and 1__0 are not) *)
+Theorem C14_number_underscore_deviation :
+  (forall lz a, num_step lz (NInt true) a 46 = NGo NDot a) /\
+  (forall lz a, num_step lz (NInt true) a 101 = NGo NExp a) /\
+  (forall lz a, num_step lz (NFrac true) a 101 = NGo NExp a) /\
+  number_spec false 49 [95; 46; 53] = Ok ([49; 53], (-1)%Z, []) /\
+  number_spec true 49 [95; 46; 53] = Err EMissingDigitAfterUnderscore /\
+  number_spec false 49 [95; 101; 53] = Ok ([49], 5%Z, []) /\
+  number_spec true 49 [95; 101; 53] = Err EMissingDigitAfterUnderscore /\
+  number_spec false 49 [46; 48; 95; 101; 49] = Ok ([49; 48], 0%Z, []) /\
+  number_spec true 49 [46; 48; 95; 101; 49] = Err EMissingDigitAfterUnderscore /\
+  number_spec false 49 [95] = Err EMissingDigitAfterUnderscore /\
+  number_spec false 49 [95; 95; 48] = Err EMissingDigitAfterUnderscore.
+Proof. exact number_underscore_deviation. Qed.
+
+Example C14_number_spec_examples :
+  number_spec false 49 (bytes_of_string "_0.2_5e-1_0 x") = Ok (bytes_of_string "1025", (-12)%Z, bytes_of_string " x") /\
+  number_spec false 48 (bytes_of_string "1") = Err ELeadingZeroInNumber /\
+  number_spec false 48 (bytes_of_string ".5") = Ok (bytes_of_string "05", (-1)%Z, []) /\
+  number_spec false 49 (bytes_of_string ".x") = Err EMissingFracDigits /\
+  number_spec false 49 (bytes_of_string "e+") = Err EMissingExpDigits /\
+  number_spec false 49 (bytes_of_string "e9223372036854775808") = Err EExpOverflow /\
+  number_spec false 49 (bytes_of_string "e9223372036854775807") = Ok ([49], 9223372036854775807%Z, []).
+Proof. vm_compute. repeat split. Qed.
+
 (* numbers, partial: the token's digit string is a non-empty string of ASCII
    digits and the effective exponent fits i64 (what f64 parsing downstream relies
    on).  The full statement — digits/exponent denote the literal's rational,
@@ -212,6 +270,11 @@ Print Assumptions C14_surrogate_pairs_onto.
 Print Assumptions C14_quoted_string_value.
 Print Assumptions C14_textblock_value.
 Print Assumptions C14_textblock_spec_examples.
+Print Assumptions C14_number_value.
+Print Assumptions C14_number_digits_value.
+Print Assumptions C14_number_strict_sub.
+Print Assumptions C14_number_underscore_deviation.
+Print Assumptions C14_number_spec_examples.
 Print Assumptions C14_number_value_partial.
 Print Assumptions C14_quoted_spec_example.
 Print Assumptions C14_nonvacuous.
